@@ -35,12 +35,31 @@ META = {
                   "defect 0 at height 0, no stop while the bracket is enlarged), which are checked numerically on every run. "
                   "(C14_on_surface) identities over the reals for every generated coordinate formula: sphere_uv, torus, icosahedron, "
                   "cylinder, ring and flat_ring rims, sphere_fibonacci points, icosphere's radial projection and base mesh, unit "
-                  "square, requested corners. Outside the generated model (independent oracle on the real meshes only): the faces of "
+                  "square, requested corners. (C14_unit_triangle_counts) the number of faces of unit_triangle for every admissible "
+                  "pair of resolutions, equal or not ((nv-1)^2 when nv <= nu), all faces triangles. (C14_flat_ring_apex_defect, "
+                  "unconditional) closed form of flat_ring's rim - vertex i+1 at the angle i*(2pi - clamped defect)/N on the unit "
+                  "circle - hence every triangle has that apex angle at the origin, counter-clockwise, N of them leave exactly "
+                  "the requested defect, and a defect in [0, 2pi - 0.01) is not altered by the clamp. (C14_ring_triangles_congruent) with "
+                  "ring's apex on the axis at any height h every triangle (0,a,b) has |p-apex|^2 = |q-apex|^2 = 1+h^2 and "
+                  "(p-apex).(q-apex) = cos(2pi/N)+h^2, so all apex angles equal the one the bisection measures on vertices 1, 2 "
+                  "(incl. the closing triangle of a closed ring and the duplicated last vertex of an open one). "
+                  "(C14_ring_apex_defect_geometric) for the geometric angle acos((A-P).(B-P)/(|A-P||B-P|)) - what "
+                  "atan2(|cross|, dot) of geometry.angle_3pts is over the reals - taken, as the code does, on vertices 1 and 2 of the "
+                  "generated ring: two of the three hypotheses of C14_ring_apex_defect are PROVED for every N >= 3 (the defect is "
+                  "monotone in the apex height; the flat ring has defect 0), only `no early stop while the bracket is enlarged` "
+                  "is left as a hypothesis (still checked numerically). "
+                  "(C14_sphere_uv_latitudes) the "
+                  "vertices of sphere_uv are the poles and n_lat rings at n_lat pairwise distinct heights strictly between the "
+                  "poles. (C14_rotation_helpers) the helpers rotate_2d and rotate_around_axis of mouette/geometry/rotations.py that "
+                  "flat_ring and cylinder call are no longer hand-written mirrors: they are GENERATED from their source "
+                  "(geom_rotate_2d, geom_rotate_around_axis, incl. the early return for a tiny angle/axis), fail-closed, and "
+                  "proved to turn by the angle / keep unit vectors orthogonal to the axis. Outside the generated model (independent oracle on the real meshes only): the faces of "
                   "sphere_fibonacci(build_surface) (scipy ConvexHull), the loop subdivision rounds of icosphere (counts/topology), "
                   "spherify_vertices, cylindrify_edges, and dual_mesh on arbitrary input (also compared with a hand model).",
     "level_note": "Trusted: Coq kernel + vm_compute; the Python-ast -> Gallina translator vf/translate/c14.py (exercised: "
                   "every generated definition is also run against the implementation); the driver's canonicalisation; "
-                  "numpy linspace/cos/sin vs. the model's binary64 evaluation within 1e-9; RawMeshData.prepare / "
+                  "numpy linspace/cos/sin vs. the model's binary64 evaluation within 1e-9; the hand models of Vec.normalized / "
+                  "Vec.norm / np.linspace in Model.v; RawMeshData.prepare / "
                   "SurfaceMesh construction keep the appended faces in order (checked by the correspondence); "
                   "scipy ConvexHull (sphere_fibonacci) and loop subdivision (icosphere) are outside the model. "
                   "Deliberately left free: the exception class and message of a refusal (a parameter below the stated "
@@ -49,8 +68,10 @@ META = {
                   "answered, the answer must satisfy the property); the numbering of vertices, the order of the faces, "
                   "edges and cells, the starting corner of a face row and which vertex is the apex of a ring (the "
                   "implementation-side oracle counts half-edges and compares points as multisets and segments by their "
-                  "end positions, within 1e-9(1+|x|) relative to the radius/scale); the number of faces of cylinder and "
-                  "of unit_triangle (the text fixes validity and shape, not a count) and which diagonal splits a "
+                  "end positions, within 1e-9(1+|x|) relative to the radius/scale); whether the side of a cylinder is made of "
+                  "triangles or quads (when all faces are triangles their number is the documented 2N + N per cap), the "
+                  "counts of unit_triangle with unequal resolutions (nothing documented; the model's counts are proved "
+                  "in C14_counts and compared by the correspondence) and which diagonal splits a "
                   "triangulated cell; the class of the returned object beyond surface / volume / polyline / point cloud "
                   "as promised; extra attributes on the result, attribute names left on input meshes by dual_mesh, "
                   "warnings, log lines, repr, dtypes of index rows; last-bit float differences from re-associated "
@@ -438,7 +459,7 @@ def _oracle(case, ob):
         nu, nv = kw["nu"], kw["nv"]
         rel = "=" if nu == nv else ("<" if nu < nv else ">")
         r = first(surface_type(),
-                  (lambda: counts(nu * (nu + 1) // 2, None)) if nu == nv else None,
+                  (lambda: counts(nu * (nu + 1) // 2, (nu - 1) ** 2)) if nu == nv else None,     # "half of a unit grid" of (nu-1)^2 cells
                   lambda: arity(3, "arity"),
                   lambda: shape("disk", "shape-nu%snv" % rel),
                   lambda: on(lambda i, p: -1e-12 <= p[0] <= 1 + 1e-12 and -1e-12 <= p[1] <= 1 + 1e-12 and p[2] == 0, "in the unit square"))
@@ -521,7 +542,9 @@ def _oracle(case, ob):
                 if abs(vdot(d, ax)) <= 1e-9 * (abs(r) + 1e-6 * L) and at_dist(p, base, r):
                     return True          # on the rim of that end
             return False
-        return first(surface_type(), counts(2 * N + (2 if caps else 0), None),
+        # "N segments": N vertices on each rim (+ the two cap centres); the sides may be quads or triangles, but when every face
+        # is a triangle their number is fixed: 2N on the side and N per cap
+        return first(surface_type(), counts(2 * N + (2 if caps else 0), (4 * N if caps else 2 * N) if all(len(f) == 3 for f in F) else None),
                      lambda: shape("sphere" if caps else "annulus"),
                      lambda: on(onc, "at distance radius=%s from the axis in the end plane / the cap centre" % r))
     if g == "torus":
